@@ -19,7 +19,7 @@ RULE = ('2-6 scanner instances per run: several instances of one reentrant (cpp 
         'instances each delivering >= 2 tokens with >= 3 hand-overs')
 TIERS = {
     'quick': {'scenarios': 24, 'plans': 40, 'tsan_scenarios': 2, 'tsan_plans': 6, 'wall_cap': 600},
-    'thorough': {'scenarios': 400, 'plans': 120, 'tsan_scenarios': 24, 'tsan_plans': 20, 'wall_cap': 3300},
+    'thorough': {'scenarios': 1600, 'plans': 120, 'tsan_scenarios': 24, 'tsan_plans': 20, 'wall_cap': 3300},
 }
 COMPONENTS = dict(sb.COMPONENTS)
 ASSUMPTIONS = ['a serialising scheduler cannot expose state shared only between two yield points; the free-running ThreadSanitizer mode covers that and is runtime monitoring, not simulation',
@@ -172,6 +172,8 @@ def project(res, i, srcmap=None, tables=False):
                 continue
             if tables and k in ('Z', 'D') and a in ('bytes', 'live', 'tables'):
                 continue      # whether this instance holds the shared tables depends on who came first
+            if tables and a == 'idx':
+                continue      # op positions shift by the TABLES_LOAD the solo plan may have to add
             v = ev[a]
             if a in ('id', 'old') and isinstance(v, str) and '.' in v:
                 v = ids.setdefault(v.split('.', 1)[1], len(ids))    # numbered by first appearance
